@@ -768,7 +768,7 @@ def C12(ck):
     # (a) framing model: the decoder's table equals the encoder's iff the scaled table sums to the scale
     rares = (0, 5, 36, 100, 200, 254) if T else (0, 5, 36, 200)
     hists = ['<<%s>>' % ','.join(['1'] * r + [str(b + i) for i in range(d)]) for r in rares for d in (1, 2, 3) for b in (10, 136, 1000)
-             if r + d >= 2]
+             if 2 <= r + d <= 256]       # a table only exists when the number of symbols does not exceed the scale (>= 256)
     lens = '{0,1,31,32,33,16383,16384,16385,32767,32768,32769,40000,65536}'
     runs = []
     for codec, lr in (('ANS0', 8), ('ANS0', 12), ('RANGE', 8), ('RANGE', 12), ('HUFFMAN', 11)):
